@@ -458,6 +458,8 @@ fn write_replay(check: &dyn Check, key: &str, detail: &str, scenario: &J, seed: 
         .set("detail", detail)
         .set("seed", seed)
         .set("run_index", index)
+        // A violation found by the release-profile sample is replayed by a release build
+        .set("build_profile", if cfg!(debug_assertions) { "dev" } else { "release" })
         .set("scenario", scenario.clone());
     let _ = std::fs::write(&path, j.to_pretty());
     path
